@@ -837,7 +837,9 @@ def _analyse(ent, Kdt, ew, u, dtn, where, noshift_observable):
             exp_sh = exp_sh.reshape((Q + 1,) + pad + kb)
             poles, wts = poles.reshape((Q,) + pad + kb), wts.reshape((Q,) + pad + kb)
             exp_sh_b, exp_w_b = exp_sh.expand((Q + 1,) + ob), (-wts).expand((Q,) + ob)
-            tolr = TOL["NODES_REL"] * u + TOL["NODES_F64"] * U["f64"]
+            # (the elliptic functions behind the rule are evaluated at modulus sqrt(1 - 1/kappa_est): their conditioning, and
+            #  with it the agreement of two correct float64 evaluations, degrades with log(kappa_est); 5.1e-13 seen at 1e4)
+            tolr = (TOL["NODES_REL"] * u + TOL["NODES_F64"] * U["f64"]) * (1.0 + math.log10(max(1.0, max(1.0 / max(k, 1e-300) for k in k2))))
             if bool(((sh - exp_sh_b).abs() > tolr * exp_sh_b.abs() + 1e-300).any()) or bool(((w - exp_w_b).abs() > tolr * exp_w_b.abs()).any()):
                 dev_s = float(((sh - exp_sh_b).abs() / (exp_sh_b.abs() + 1e-300)).max())
                 dev_w = float(((w - exp_w_b).abs() / exp_w_b.abs()).max())
